@@ -90,6 +90,11 @@ impl RwLock {
 
     pub(crate) fn release_read_lock(&self) {
         super::execution(|execution| {
+            // Execution has deadlocked, cleanup does not matter.
+            if !execution.threads.is_active() {
+                return;
+            }
+
             let state = self.state.get_mut(&mut execution.objects);
             let thread_id = execution.threads.active_id();
 
@@ -120,6 +125,11 @@ impl RwLock {
             let state = self.state.get_mut(&mut execution.objects);
 
             state.lock = None;
+
+            // Execution has deadlocked, cleanup does not matter.
+            if !execution.threads.is_active() {
+                return;
+            }
 
             state
                 .synchronize
